@@ -5,7 +5,7 @@
 (* wraps a real AES-256-GCM, through fault sequences written by TLC                          *)
 (* (spec/plan/Plan_EnvelopeFaults) and seeded random ones.  Events:                          *)
 (*  {"ev":"reset","id","variant","tmpl","client","dek","kt","dk":{key,mkey,iv,tag,hash},       *)
-(*   "turl","pre":{ct,pt,ad,dek,encdek}}          a scenario starts: the model is re-initialised  *)
+(*   "turl","preerr","pre":{ct,pt,ad,dek,encdek}} a scenario starts: the model is re-initialised  *)
 (*  {"ev":"new","obj":"ok"|"none","step","panic","errmsg","rcalls":[..],"client":[{op,uri}]}    *)
 (*  {"ev":"call","k","op","beh","ctx","kind","i","in","ad","rcalls":[{op,arg,ad,adnil,ctx,beh,    *)
 (*   form,ret,reterr,retctx,panic,t0,t1}],"client","res","out","outnil","errrem","errctx",         *)
@@ -60,7 +60,10 @@ Step_reset(e) ==
      /\ cst' = <<[ct |-> e.pre.ct, pt |-> e.pre.pt, ad |-> e.pre.ad, dek |-> e.pre.dek, encdek |-> e.pre.encdek]>>
      /\ cdeks' = <<e.pre.dek>>
      /\ bad' = IF c \notin Cfgs THEN Infra("unknown configuration", ToString(c))
-               ELSE IF ~PreOK(e) THEN Infra("the pre-made envelope is not an envelope of its DEK", e.pre.ct)
+               ELSE IF e.preerr # "" THEN Doc("Recovery", "Encrypt over an honest remote failed (the envelope the scenario starts with)", e.preerr)
+               ELSE IF ~PreOK(e)      \* the helper is the real NewKMSEnvelopeAEAD2(template, honest remote).Encrypt: D1 applies to it
+                 THEN Doc("D1", "Encrypt over an honest remote (the envelope the scenario starts with): not be32(n) || the remote's bytes || a "
+                                \o "payload that opens under the DEK the remote was given", e.pre.pt)
                ELSE <<>>
 
 Keep == UNCHANGED <<cfg, store, ndek, aux, last, n, sc, cst, cdeks>>
@@ -119,7 +122,7 @@ RemotePremise(lab, f, rcs) ==
     THEN Infra("the scripted remote's claim about its encrypted DEK does not fit the bytes", "")
   ELSE IF \E k \in DOMAIN rcs : ~rcs[k].panic /\ ~rcs[k].reterr /\ rcs[k].op = "Decrypt" /\
         LET hit == {j \in DOMAIN cst : cst[j].encdek = rcs[k].arg}
-        IN (rcs[k].form = "true") # (\E j \in hit : rcs[k].ret = cst[j].dek)
+        IN hit # {} /\ (rcs[k].form = "true") # (\E j \in hit : rcs[k].ret = cst[j].dek)
     THEN Infra("the scripted remote's claim about the DEK it returned does not fit the bytes", "")
   ELSE IF Len(rcs) >= 1 /\ AbsArg(lab, f, rcs[1])[1] # "other" /\ rcs[1].op = lab.op /\
           AbsRet(rcs[1]) # RemoteRet(lab.op, lab.beh, rcs[1].ctx, AbsArg(lab, f, rcs[1]), store)
@@ -163,7 +166,9 @@ EncryptLinkage(e, rcs) ==
 
 JudgeCall(e, lab, f, rcs, m, obs) ==
   LET cs == obs.calls
-  IN IF ~FaultSurfaces' /\ \E k \in DOMAIN cs : DocFailed(cs[k].ret)
+  IN IF ObjOf(cfg) = "failing" /\ e.res = "ok"
+       THEN Doc("D6", lab.op \o " succeeded on an AEAD made by NewKMSEnvelopeAEAD2 from a DEK template of an undocumented key type (" \o sc.turl \o ")", "error")
+     ELSE IF ~FaultSurfaces' /\ \E k \in DOMAIN cs : DocFailed(cs[k].ret)
        THEN Doc("FaultSurfaces", lab.op \o " succeeded although the remote failed in this call (" \o lab.beh \o ")", m.res)
      ELSE IF ~NoPartialOutput' THEN Doc("NoPartialOutput", lab.op \o " returned bytes together with " \o e.res, "no output")
      ELSE IF ~RemoteCallAccounting' /\ (Reaches(cfg, lab) \/ (lab.op = "Decrypt" /\ lab.kind \in RejectKinds))
